@@ -22,7 +22,7 @@ def tf_init():
   except RuntimeError:
     pass
   import qkeras  # pylint: disable=import-outside-toplevel
-  assert os.path.realpath(qkeras.__file__).startswith("/repo/"), qkeras.__file__
+  assert os.path.realpath(qkeras.__file__).startswith(os.environ.get("VERIF_REPO", "/repo") + "/"), qkeras.__file__
   _TF = tf
   return tf
 
@@ -172,18 +172,18 @@ def tensor(shape, pattern, seed=0):
   n = int(np.prod(shape))
   i = np.arange(n)
   if pattern == "grid7":
-    v = (((i * 5 + 3) % 15) - 7) / 7.0
+    v = (((i * 7 + 3) % 15) - 7) / 7.0
   elif pattern == "ramp":
     v = (i - (n - 1) / 2.0) / max(1.0, n / 4.0) + 0.013
   elif pattern == "signs":
     sv = _sign_values()
     v = sv[(i * 7 + 1) % len(sv)]
   elif pattern in ("zero_channel", "zeros"):
-    v = (((i * 5 + 3) % 15) - 7) / 7.0
+    v = (((i * 7 + 3) % 15) - 7) / 7.0
   elif pattern == "huge":
-    v = ((((i * 5 + 3) % 15) - 7) / 7.0) * 1e6
+    v = ((((i * 7 + 3) % 15) - 7) / 7.0) * 1e6
   elif pattern == "tiny":
-    v = ((((i * 5 + 3) % 15) - 7) / 7.0) * 1e-6
+    v = ((((i * 7 + 3) % 15) - 7) / 7.0) * 1e-6
   elif pattern == "one_hot_max":
     v = ((((i * 3 + 1) % 11) - 5) / 50.0)
   else:
